@@ -714,6 +714,11 @@ func (g *Gtp5g) UpdateFAR(lSeid uint64, req *ie.IE) error {
 	if err != nil {
 		return err
 	}
+	// the Apply Action handling below needs the FAR ID, and PFCP does not
+	// fix the order of the IEs inside a grouped IE: look it up first
+	if v, err1 := req.FARID(); err1 == nil {
+		farid = uint64(v)
+	}
 	for _, i := range ies {
 		switch i.Type {
 		case ie.FARID:
